@@ -496,8 +496,8 @@ class Interp:
             if isinstance(it, (Opaque, Ref, Rec)) or not hasattr(it, '__iter__'):
                 raise Unmodelled(f'for-loop over a symbolic iterable at line {s.lineno}')
             items = list(it)
-            if len(items) > 256:
-                raise Unmodelled('for-loop over more than 256 items')
+            if len(items) > getattr(self.world, 'max_items', 256):
+                raise Unmodelled(f'for-loop over more than {getattr(self.world, "max_items", 256)} items')
             broke = False
             for item in items:
                 self.store(s.target, item)
@@ -1639,8 +1639,8 @@ class Interp:
         if isinstance(it, (Opaque, Ref, Rec)) or not hasattr(it, '__iter__'):
             raise Unmodelled('comprehension over a symbolic iterable')
         items = list(it)
-        if len(items) > 256:
-            raise Unmodelled('comprehension over more than 256 items')
+        if len(items) > getattr(self.world, 'max_items', 256):
+            raise Unmodelled(f'comprehension over more than {getattr(self.world, "max_items", 256)} items')
         saved = dict(self.env)
         for item in items:
             self.store(g.target, item)
